@@ -2,7 +2,7 @@
 # confirm_seed.sh <PROPERTY> <k>   -- confirm sub-agent mutation k of property in its scratch worktree /tmp/wt/<PROPERTY>:
 #  (1) patch applies+compiles, (2) the 72-test baseline passes with it, (3) demo fails with it, (4) demo passes without.
 # On success copies it to /verif/seeded/<PROPERTY>-m<k>/ with meta.json.
-wtn=$1; k=$2; mk=$3; pid=${wtn%r2}; wt=/tmp/wt/$wtn; m=$wt/out/m$k; log=/tmp/wt/confirm_${wtn}_m$k.log
+wtn=$1; k=$2; mk=$3; pid=${wtn:0:3}; wt=/tmp/wt/$wtn; m=$wt/out/m$k; log=/tmp/wt/confirm_${wtn}_m$k.log
 exec >$log 2>&1
 cd $wt || exit 2
 git checkout -q -- . ; git apply $m/patch.diff || { echo "RESULT apply-failed"; exit 1; }
